@@ -1070,7 +1070,15 @@ class Index(IndexBase):
             # can select directly from _labels[key] if if key is a list
             labels = self._labels[key]
         else: # select a single label value
-            return self._labels[key] #type: ignore
+            post = self._labels[key]
+            if post.__class__ is not np.ndarray:
+                return post #type: ignore
+            if post.ndim != 1:
+                # not a selection of labels (a Boolean scalar adds a dimension): never hand out a writeable array
+                post.flags.writeable = False
+                return post #type: ignore
+            # an iterable key other than a list or an array (a range, an Index, a Series) selects labels
+            labels = post
 
         return self.__class__(labels=labels, name=self._name)
 
